@@ -126,7 +126,7 @@ def fam_programs(rng, n, nsub_max, waits, shutdown=False, imm_only=False):
     return out
 
 
-def fam_model_scope(rng, n):
+def fam_model_scope(rng, n, shutdown=False):
     """Programs in the alphabet of Buffer.tla (plain calls, awaitables that deliver or fail after a delay on the
     grid, maps of an empty list, wait() calls) - judged by the contract like every other execution and, in addition,
     eligible for conformance with the timed model."""
@@ -151,6 +151,9 @@ def fam_model_scope(rng, n):
         for w in range(rng.randint(0, 2)):
             prog.append({'at': rng.choice([it['at'] for it in prog]) + rng.choice([0.0, 0.5, tau - 0.5, tau, tau + 0.5]),
                          'op': 'wait', 'w': w + 1, 'cancel': rng.random() < 0.6})
+        if shutdown and rng.random() < 0.4:     # the loop shuts down after the last operation, at any phase of the processing
+            prog.append({'at': max(it['at'] for it in prog) + rng.choice([0.5, 1.0, tau - 0.5, tau, tau + 0.5, tau + 1.0, 2 * tau, 2 * tau + 1.0]),
+                         'op': 'shutdown'})
         prog.sort(key=lambda it: it['at'])
         func = {'dur': rng.choice([0.0, 0.5, 1.0]), 'fail': rng.choice([[], [], [1], [1, 2]])}
         out.append({'timeout': tau, 'func': func, 'prog': prog, 'end': end_time(prog, tau, func),
@@ -257,7 +260,7 @@ def run(ctx):
         go(fam_programs(rng, 1200 if q else 20000, 4, 1, shutdown=True), 'shutdown_instants')
         go(fam_foreign(rng, 500 if q else 12000), 'foreign_threads')
     if ctx.prop in ('C03', 'C07'):
-        go(fam_model_scope(rng, 300 if q else 5000), 'model_scope_producers')
+        go(fam_model_scope(rng, 300 if q else 5000, shutdown=ctx.prop == 'C07'), 'model_scope_producers')
     if ctx.prop == 'C07':      # make sure some plain-call-plus-wait programs are in the conformance sample
         go(fam_programs(rng, 200 if q else 2000, 4, 2, imm_only=True), 'imm_programs_with_waits')
     # implementation conformance: a sample of the recorded executions against the timed model itself
